@@ -462,6 +462,15 @@ def m_abs(I, args, kw):
     return abs(v)
 
 
+def m_divmod(I, args, kw):
+    """divmod(a, b) == (a // b, a % b) - read through the engine's own // and % (constant positive divisor for symbolic a)."""
+    import ast
+    a, b = args
+    if not isinstance(a, Sym) and not isinstance(b, Sym):
+        return I.lift(divmod(a, b))
+    return SeqV("tuple", None, items=[I.binop(ast.FloorDiv, a, b), I.binop(ast.Mod, a, b)])
+
+
 def m_hasattr(I, args, kw):
     obj, name = args
     try:
@@ -1047,7 +1056,7 @@ def build_models():
         builtins.int: m_int, builtins.float: m_float, builtins.bool: m_bool, builtins.str: m_str,
         builtins.repr: m_repr, builtins.range: m_range, builtins.enumerate: m_enumerate,
         builtins.min: m_minmax("min"), builtins.max: m_minmax("max"), builtins.all: m_allany(True),
-        builtins.any: m_allany(False), builtins.sum: m_sum, builtins.abs: m_abs, builtins.hasattr: m_hasattr,
+        builtins.any: m_allany(False), builtins.sum: m_sum, builtins.abs: m_abs, builtins.divmod: m_divmod, builtins.hasattr: m_hasattr,
         builtins.getattr: m_getattr, builtins.setattr: m_setattr, builtins.ord: m_ord, builtins.chr: m_chr,
         builtins.hex: m_hex, builtins.hash: m_hash, builtins.print: m_print, builtins.sorted: m_sorted,
         builtins.zip: m_zip, builtins.reversed: m_reversed, builtins.callable: m_callable,
